@@ -19,8 +19,8 @@ from harness.impl import fordrun as F
 
 IMPORTS = ("From Ford Require Import Base.Str Base.Path Out.Names Out.External Out.ExternalSpec Corr.C16.\n"
            "Definition rq (i : nat) (d n : str) : req := {| r_id := i; r_dir := d; r_name := n |}.")
-THEOREMS = ["C16_roundtrip", "C16_import_export", "C16_target_unique", "C16_target_written_partial",
-            "C16_target_written_refuted", "C16_export_exact_partial", "C16_export_exact_refuted_private_listed",
+THEOREMS = ["C16_roundtrip", "C16_roundtrip_paths", "C16_roundtrip_paths_use", "C16_import_export", "C16_target_unique", "C16_exported_target_written",
+            "C16_pub_table", "C16_undisplayed_not_exported", "C16_export_exact_partial", "C16_export_exact_refuted_private_listed",
             "C16_export_exact_refuted_public_unlisted", "C16_local_first", "C16_local_first_find",
             "C16_load_errors_contained", "C16_load_all_or_nothing",
             "C16_tables_fingerprint"]
@@ -553,7 +553,12 @@ def check_pair(chk, b, B, bdoc, base, payload, graph):
 
     def expect(page, label, ent_id, what):
         """some link with this text on this page leads to where entity ent_id is documented"""
-        e = ents[ent_id][0]
+        e, par = ents[ent_id]
+        # an entity that A does not display (or whose container it does not display) is not exported:
+        # B shows its name without a link, which is all the property asks for
+        chain_ = [e] + ([par] if par is not None and par["kind"] != "module" else [])
+        if any(x["kind"] != "module" and x["perm"] not in b.A["display"] for x in chain_):
+            return
         hits = [l for l in links.get(page, []) if l[0].lower() == label.lower()]
         if any(ent_id in l[3] for l in hits):
             wrong = [l for l in hits if ent_id not in l[3]]
@@ -585,7 +590,8 @@ def check_pair(chk, b, B, bdoc, base, payload, graph):
                 # the inherited type-bound procedures are listed with links to the parent's documentation:
                 # they must be the parent's OWN members, not same-named members of another type of A
                 for c in t["extends"]["kids"]:
-                    if c["kind"] == "bound" and c["perm"] in b.A["display"]:
+                    # (B itself shows only public / protected inherited bindings)
+                    if c["kind"] == "bound" and c["perm"] in b.A["display"] and c["perm"] != "private":
                         expect(tpage, c["name"], c["id"], f"inherited binding of {t['extends']['name']}")
         for v in bm["vars"]:
             expect(mpage, v["type"]["name"], v["type"]["id"], "variable of an imported type")
@@ -593,6 +599,8 @@ def check_pair(chk, b, B, bdoc, base, payload, graph):
             for p in bm["procs"]:
                 ppage = f"proc/{p['name'].lower()}.html"
                 for c in p["calls"]:
+                    if c["perm"] not in b.A["display"]:
+                        continue
                     hits = [l for pg in (ppage,) for l in links.get(pg, []) if c["id"] in l[3]]
                     if not hits:
                         problems.append((f"call graph: no link on {ppage} reaches {c['kind']} {c['name']} "
@@ -607,9 +615,6 @@ def check_pair(chk, b, B, bdoc, base, payload, graph):
     chk.traces += 1
     if problems:
         chk.disagreements += 1
-        dead = all(p[0].startswith("link into A to a page A did not write") or "no link" in p[0] for p in problems)
-        if not default_display and dead and known_once(chk, "export-follows-display"):
-            return
         chk.violation("failing-input", dict(payload, what="end-to-end: links of B into A", problems=problems[:10]), True)
 
 
